@@ -190,6 +190,9 @@ impl Property for C11 {
     fn enumeration_exhaustive(_tier: Tier) -> Option<String> {
         Some("64 two-character combinations over {\\ \" n LF t TAB u /} x 16 string fields; all Unicode scalar values in stdout and an environment key".into())
     }
+    fn concurrent() -> bool {
+        true
+    }
     fn check(spec: &Spec, _env: &mut Env) -> Outcome {
         let mut o = Outcome::new();
         let meta = spec.doc.to_lib();
